@@ -2620,16 +2620,24 @@ def check_update_protocol(ck, R):
     ok_v = len(vdef) == 1 and len(fa.calls("_recompute_version")) == 1 and len(vdef[0].targets) == 1 and isinstance(vdef[0].targets[0], ast.Name)
     ck.ob(R, fa.key(None, "version-is-recomputed"), ok_v, "`version` is the freshly recomputed version" if ok_v else
           "`version` is not assigned from self._recompute_version() exactly once", fa.where())
-    # (d) every assignment to _calculated_version is followed by _update_fn_reference
+    # (d) the reference for a version is in place BEFORE that version is published: every assignment to _calculated_version
+    # has passed an _update_fn_reference call that was given the very value assigned.  (The other order leaves a window in
+    # which another thread finds the new version, concludes the reference is current and addresses the old version's
+    # entries - D50.)
     asg = [s for s in fa.stmts(ast.Assign) if any(A.dotted(t) == "self._calculated_version" for t in s.targets)]
-    upd = fa.nodes_all(fa.calls("_update_fn_reference"))
+    upd_calls = fa.calls("_update_fn_reference")
     ok_d = bool(asg)
+    why_d = "the calculated version can change without rebuilding the function reference: calls keep addressing the old version's entries"
     for s in asg:
         for i in fa.nodes(s):
-            if cfg.exit in cfg.reach([i], removed=upd, include_start=False):
+            same = [c for c in upd_calls if c.args and fa.nodes(c) and fa.xnorm(c.args[0], fa.nodes(c)[0]) == fa.xnorm(s.value, i)]
+            before = fa.nodes_all(same)
+            if not before or not cfg.must_pass(before, i):
                 ok_d = False
-    ck.ob(R, fa.key(None, "reference-refreshed"), ok_d, "the function reference is rebuilt whenever the calculated version is set" if ok_d else
-          "the calculated version can change without rebuilding the function reference: calls keep addressing the old version's entries", fa.where())
+                if fa.nodes_all(upd_calls) and cfg.exit not in cfg.reach([i], removed=fa.nodes_all(upd_calls), include_start=False):
+                    why_d = ("the new version is stored before the reference for it is built: a second thread that recomputes the same version in "
+                             "that window finds it in place, keeps the previous reference and is served the old edition's stored result")
+    ck.ob(R, fa.key(None, "reference-refreshed"), ok_d, "the function reference is rebuilt, for the very version, before the calculated version is set" if ok_d else why_d, fa.where())
     # a version is only ever adopted from this instance's own evaluation of its rules: an instance
     # that never evaluated them (unregistered wrapper, fresh object) cannot vouch that nothing changed
     for s_ in asg:
@@ -2670,11 +2678,18 @@ def check_update_protocol(ck, R):
         a_ = _call_arg(ck, fr[0], FRI, name)
         return uf.xnorm(a_, uf.nodes(fr[0])[0]) if a_ is not None and uf.nodes(fr[0]) else None
 
-    okf = len(fr) == 1 and fr_arg("version") == "self.version()" and fr_arg("cluster_name") == "self.cluster_name" \
+    vparam = [p_ for p_ in uf.fi.params if p_ != "self"]
+    okf = len(fr) == 1 and len(vparam) == 1 and fr_arg("version") == vparam[0] and fr_arg("cluster_name") == "self.cluster_name" \
         and fr_arg("partial_args") == "self.partial_args" and fr_arg("partial_kwargs") == "self.partial_kwargs" \
         and any(A.dotted(t) == "self._fn_reference" for s_ in uf.stmts(ast.Assign) for t in s_.targets)
-    ck.ob(R, uf.key(None, "reference-from-current-version"), okf, "the reference is rebuilt with the current version and the partials" if okf else
-          "_update_fn_reference does not rebuild FunctionReference(self, cluster, version=self.version(), partials)", uf.where())
+    ck.ob(R, uf.key(None, "reference-from-current-version"), okf, "the reference is rebuilt with the version it is handed and the partials" if okf else
+          "_update_fn_reference does not rebuild FunctionReference(self, cluster, version=<the version handed in>, partials): asking "
+          "self.version() here re-enters the updater while the new version is not in place yet", uf.where())
+    # the explicit-version branch hands the declared version
+    okx = all(c.args and fa.nodes(c) and fa.xnorm(c.args[0], fa.nodes(c)[0]) in ("self.explicit_version", fa.xnorm(a_.value, fa.nodes(a_)[0]))
+              for c in upd_calls for a_ in (asg or [None]) if a_ is not None) if asg else False
+    ck.ob(R, fa.key(None, "reference-for-declared-or-computed-version"), okx, "the reference is built for the declared version or the one just computed" if okx else
+          "_update_fn_reference is handed something other than the declared version or the version being published", fa.where())
     vv = FA(ck, MF + ".version")
     # wherever the answer is read from the calculated version (directly in a return, or into a result variable
     # that is returned), that read comes after the refresh
@@ -2867,7 +2882,7 @@ def check_did_change(ck, R):
         "MementoFunctionHashRule": ("memento_fn",),
         "NonMementoFunctionHashRule": ("src_fn",),
         "GlobalVariableHashRule": ("last_value",),
-        "UndefinedSymbolHashRule": ("ref", "symbol"),
+        "UndefinedSymbolHashRule": ("ref", "attr_name"),
         "UnhashedSymbolHashRule": ("ref",),
     }
     for cls in hash_rule_classes(ck):
@@ -2925,12 +2940,12 @@ def check_did_change(ck, R):
                             res = {"kind": "strategy-none"}
                 if isinstance(op, (ast.In, ast.NotIn)) and presence:
                     sides = lp_ | rp_
-                    if any(r_ == "cap:symbol" for (r_, _p, _f) in lp_) and any(r_ in ("fresh", "cap:ref") for (r_, _p, _f) in rp_):
+                    if any(r_ in ("cap:symbol", "cap:attr_name") for (r_, _p, _f) in lp_) and any(r_ in ("fresh", "cap:ref") for (r_, _p, _f) in rp_):
                         res = {"kind": "presence"}
                     del sides
             elif isinstance(e, ast.Call) and A.call_attr(e) == "hasattr" and isinstance(e.func, ast.Name) and len(e.args) == 2 and presence:
                 if any(r_ in ("fresh", "cap:ref") for (r_, _p, _f) in _access_paths(fa, e.args[0], at)) \
-                        and any(r_ == "cap:symbol" for (r_, _p, _f) in _access_paths(fa, e.args[1], at)):
+                        and any(r_ in ("cap:symbol", "cap:attr_name") for (r_, _p, _f) in _access_paths(fa, e.args[1], at)):
                     res = {"kind": "presence"}
             if res["kind"] is None and e is not None and at is not None and strategy_scan(e, at):
                 res = {"kind": "scan"}
@@ -3076,6 +3091,36 @@ def check_every_symbol_watched(ck, R):
           "_visit_dependency can finish without adding any rule for a symbol that resolves to an object no strategy matches (functools.partial, a class, "
           "an arbitrary instance): nothing watches that symbol, so re-binding it later to a function or a value keeps the cached version "
           "(path %s)" % v.cfg.describe_path(p), v.where())
+    # the rule left for an attribute that is missing on an object is identified by the whole dotted name: the same attribute
+    # can be missing on several objects (Left.scale, Right.scale), and rules with one key and symbol are one element of the
+    # result set - the second one would be dropped and defining its attribute later would never be noticed (D49)
+    for u in _visit_unit(ck):
+        for c in u.calls("UndefinedSymbolHashRule"):
+            if not u.nodes(c):
+                continue
+            at = u.nodes(c)[0]
+            flag = A.kwarg(c, "ref_is_global_table") or (c.args[4] if len(c.args) > 4 else None)
+            if flag is None or A.norm(u.expand(flag, at)) != "False":
+                continue   # the rule for a name missing in the globals table: a global name is unique by itself
+            sym = A.kwarg(c, "symbol") or (c.args[2] if len(c.args) > 2 else None)
+            e = u.expand(sym, at) if sym is not None else None
+            bare = e is None or (isinstance(e, ast.Subscript) and not isinstance(e.slice, ast.Slice))
+            builds = e is not None and any(isinstance(x, (ast.BinOp, ast.JoinedStr)) or (isinstance(x, ast.Call) and A.call_attr(x) in ("join", "format")) for x in ast.walk(e))
+            accumulated = set()
+            for st in u.stmts((ast.AugAssign, ast.Assign)):
+                tg = [st.target] if isinstance(st, ast.AugAssign) else st.targets
+                for t in tg:
+                    if isinstance(t, ast.Name) and (isinstance(st, ast.AugAssign) or any(isinstance(x, ast.Name) and x.id == t.id for x in ast.walk(st.value))) \
+                            and u.enclosing(st, (ast.For, ast.While)) is not None:
+                        accumulated.add(t.id)
+            raw = sym if sym is not None else None
+            uses_prefix = raw is not None and (any(isinstance(x, ast.Name) and x.id in accumulated for x in ast.walk(raw))
+                                               or any(isinstance(x, ast.Subscript) and isinstance(x.slice, ast.Slice) for x in ast.walk(e if e is not None else raw)))
+            ok = (not bare) and (builds or uses_prefix) and uses_prefix
+            ck.ob(R, u.key(c, "undefined-attribute-named-in-full"), ok, "the rule for a missing attribute is identified by the whole dotted name" if ok else
+                  "the rule for an attribute that is missing on an object is identified by the bare attribute name (`%s`): two dotted names of one "
+                  "function that miss the same attribute on different objects are one rule, the set keeps the first, and defining the attribute "
+                  "later on the other object is never noticed" % A.short(sym, 40), u.where(c))
     # a rule found by a strategy is handed the result set through collect_transitive_dependencies: on every normal exit
     # it has added a rule for its symbol (itself, or a watch-only stand-in when it is out of scope), unless it found
     # itself accounted for already
